@@ -32,7 +32,9 @@ def gen_plan(rng, tier: str, idx: int) -> dict:
         pen = rng.choice(["identity", "ridge_plus", "diff1", "diff2" if d >= 3 else "diff1"])
         return {"sub": "tau2", "n": rng.randint(5, 14), "d": d, "pen": pen, "a": rng.choice([0.5, 1.0, 2.0, 3.5]), "b": rng.choice([0.001, 0.05, 0.5, 1.0, 2.5]),
                 "beta": [round(rng.uniform(-2, 2), 3) for _ in range(d)], "tau2_now": rng.choice([0.1, 1.0, 7.0, 10000.0]),
-                "data_seed": rng.randrange(10**6), "seed": rng.randrange(2**31), "N": N, "second_smooth": rng.random() < 0.4}
+                "data_seed": rng.randrange(10**6), "seed": rng.randrange(2**31), "N": N, "second_smooth": rng.random() < 0.4,
+                # the hyperparameters found in the model state at sampling time (changed after the kernel was built)
+                "a_later": rng.choice([None, None, 0.7, 2.0, 5.0]), "b_later": rng.choice([None, None, 0.3, 1.5])}
     k = rng.randint(2, 6)
     outcomes = sorted(rng.sample([-2.0, -1.0, -0.5, 0.0, 0.5, 1.0, 1.5, 2.0, 3.0], k))
     probs = [rng.uniform(0.2, 1.0) for _ in range(k)]
@@ -104,11 +106,23 @@ def run_tau2(plan, V, log, counters):
     group = model.groups()["f"]
     kernel = tau2_gibbs_kernel(group)
     kernel.set_model(iface)
+    a_now, b_now = plan["a"], plan["b"]
+    later = {}
+    if plan.get("a_later") is not None:
+        a_now = plan["a_later"]
+        later["f_a"] = jnp.float32(a_now)
+    if plan.get("b_later") is not None:
+        b_now = plan["b_later"]
+        later["f_b"] = jnp.float32(b_now)
+    if later:
+        # "given all other current values": the conditional is defined by the state handed to the kernel
+        state = iface.update_state(later, state)
+        counters["probe.hyperparameters_changed_after_kernel_construction"] = 1
     # analytic conditional from the plan alone
     beta = np.asarray(plan["beta"], F64)
     rank = int(np.linalg.matrix_rank(K))
-    a_c = plan["a"] + 0.5 * rank
-    b_c = plan["b"] + 0.5 * float(beta @ K @ beta)
+    a_c = a_now + 0.5 * rank
+    b_c = b_now + 0.5 * float(beta @ K @ beta)
     label = f"tau2/{plan['pen']}" + ("/rank-deficient" if rank < d else "/full-rank")
     # (1) proportional to the model's own joint density as a function of tau2 alone
     grid = np.exp(np.linspace(np.log(max(0.03, b_c / (a_c + 1) / 8)), np.log(b_c / max(a_c - 0.9, 0.2) * 8 + 1.0), 25)).astype(np.float32)
